@@ -387,7 +387,7 @@ def run(ix, R):
     with R.guard('7', 'SIB', site, 'k-table routine agrees with the cross-section routine'):
         kt = emission_core(ix, R, '7', site, ktab=True)
         if kt:
-            ktable_terms(ix, R, kt)
+            ktable_terms(ix, R, kt, '7')
     site = E + '::EmissionModel.evaluate_emission'
     stmt = 'k-table routine is selected exactly when opacity_method == ktables'
     with R.guard('7.switch', 'DOM', site, stmt):
@@ -421,7 +421,7 @@ KE_PARAMS = ['startK', 'endK', 'density_offset', 'sigma', 'density', 'path',
              'weights', 'ngrid', 'layer', 'ngauss']
 
 
-def ktable_terms(ix, R, kt):
+def ktable_terms(ix, R, kt, pfx='7'):
     site = E + '::EmissionModel.evaluate_emission_ktables'
     f, fl, b = kt['f'], kt['fl'], kt['b']
     b.update(S=kt['S'], L=kt['L'], D=kt['Dd'])
@@ -442,20 +442,23 @@ def ktable_terms(ix, R, kt):
             rng = {'startK': 'layer', 'endK': 'layer+1'}
         roles = dict(rng, density_offset='0', density='rho', layer='0',
                      ngrid='wngrid.shape[0]')
-        arg_roles(R, '7.k' + ('L' if e is kL else 'D'), site,
+        arg_roles(R, pfx + '.k' + ('L' if e is kL else 'D'), site,
                   'k-table column %s with density offset 0 and the shared dz' % rng,
                   fl, e, kp, roles, f, b)
     if kL is None or kD is None:
-        raise AnalysisError('k-table calls do not cover (layer+1,N) and (layer,layer+1)')
+        rr = [(fmt(fl, bind_call(e, kp)['startK']), fmt(fl, bind_call(e, kp)['endK'])) for e in ke]
+        R.fail(pfx + '.kL', 'ARG', site, 'k-table columns cover (layer+1, N) and (layer, layer+1)',
+               'k ranges %s' % rr, 'k-table columns integrate %s' % rr, f.loc(ke[0].node))
+        return
     gl, gd = bind_call(kL, kp), bind_call(kD, kp)
     same = all(fl.tab.equal(gl[p], gd[p]) for p in ('sigma', 'density', 'path', 'weights', 'ngauss'))
-    R.check('7.ksame', 'SIB', site, 'both k-table columns use the same sigma, density, dz and weights',
+    R.check(pfx + '.ksame', 'SIB', site, 'both k-table columns use the same sigma, density, dz and weights',
             same, key='differing arguments',
             detail='L: %s\n    D: %s' % ({k: fmt(fl, v) for k, v in gl.items()},
                                          {k: fmt(fl, v) for k, v in gd.items()}),
             loc=f.loc(kL.node))
     dzok = fl.tab.equal(gl['path'], code(fl, 'self.deltaz'))
-    R.check('7.kdz', 'SIB', site, 'k-table columns integrate over self.deltaz like the cross-section routine',
+    R.check(pfx + '.kdz', 'SIB', site, 'k-table columns integrate over self.deltaz like the cross-section routine',
             dzok, key='path <- %s' % fmt(fl, gl['path']),
             detail='path is %s, the cross-section routine uses self.deltaz' % fmt(fl, gl['path']),
             loc=f.loc(kL.node))
@@ -475,12 +478,12 @@ def ktable_terms(ix, R, kt):
                     '_guard(M, exp(-(D+L)*mu)*sum(exp(-(KD+KL)*mu)*wg, axis=-1), exp(-(D+L)*mu)))', b2)
     stmt = ('I += B(T[layer])/pi * (T_above - T_through) with the k-table transmittance '
             'sum_g w_g exp(-tau_g/mu) multiplied in, same Planck index as the cross-section routine')
-    R.check('7.I', 'SIB', site, stmt, fl.tab.equal(au.value, want),
+    R.check(pfx + '.I', 'SIB', site, stmt, fl.tab.equal(au.value, want),
             key='I += %s' % fmt(fl, au.value),
             detail='I += %s\n    expected %s' % (fmt(fl, au.value), fmt(fl, want)),
             loc=f.loc(au.node), extracted=fmt(fl, au.value))
     r = one([e for e in fl.of('return') if isinstance(e.value_ast, ast.Tuple)], 'tuple return')
-    _ret_roles(R, '7.ret', site, fl, f, r, au.name)
+    _ret_roles(R, pfx + '.ret', site, fl, f, r, au.name)
 
 
 MUTANTS = [
